@@ -586,10 +586,55 @@ def expand_forwarders(trees: Dict[str, ast.Module]) -> List[str]:
     return notes
 
 
+def normalise_names(trees: Dict[str, ast.Module], anchors: Set[str]) -> List[str]:
+    """A function the rules know by name that was merely made private or public (`update_exiting` ->
+    `_update_exiting`, `_doms` -> `doms`) is read under the name the rules use: when the library defines F,
+    defines no function named A, and A is the one name the checker uses with the same stem
+    (leading / trailing underscores stripped), every occurrence of F is read as A."""
+    notes: List[str] = []
+    defined: Set[str] = set()
+    for t in trees.values():
+        for n in ast.walk(t):
+            if isinstance(n, _FUNC):
+                defined.add(n.name)
+    by_stem: Dict[str, List[str]] = {}
+    for a in anchors:
+        if len(a.strip("_")) >= 5:
+            by_stem.setdefault(a.strip("_"), []).append(a)
+    ren: Dict[str, str] = {}
+    for f in sorted(defined):
+        if f in anchors or f.startswith("__"):
+            continue
+        cands = [a for a in by_stem.get(f.strip("_"), []) if a not in defined]
+        if len(cands) == 1:
+            ren[f] = cands[0]
+    if not ren:
+        return notes
+    for t in trees.values():
+        for n in ast.walk(t):
+            if isinstance(n, _FUNC) and n.name in ren:
+                n.name = ren[n.name]
+            elif isinstance(n, ast.Name) and n.id in ren:
+                n.id = ren[n.id]
+            elif isinstance(n, ast.Attribute) and n.attr in ren:
+                n.attr = ren[n.attr]
+            elif isinstance(n, ast.alias):
+                if n.name in ren:
+                    n.name = ren[n.name]
+                if n.asname in ren:
+                    n.asname = ren[n.asname]
+            elif isinstance(n, ast.keyword) and n.arg in ren:
+                pass
+    for f, a in sorted(ren.items()):
+        notes.append(f"function {f} is read as {a} (same stem; the rules use the latter name)")
+    return notes
+
+
 def inline_helpers(trees: Dict[str, ast.Module], anchors: Optional[Set[str]] = None) -> List[str]:
     """In-place.  Returns notes `module: helper -> n sites (dissolved|kept)`."""
     anchors = anchor_names() if anchors is None else anchors
-    notes: List[str] = expand_forwarders(trees)
+    notes: List[str] = normalise_names(trees, anchors)
+    notes += expand_forwarders(trees)
     # method names defined in more than one class anywhere are subject to dispatch
     method_count: Dict[str, int] = {}
     for t in trees.values():
